@@ -20,7 +20,13 @@ PROP = {
             'replayed through the real create-event handler in a drawn order), arbitration round; every case ends with a round. Non-trivial = before some round a limited scope had exactly one free slot and at least two '
             'admissible waiting jobs. arbitrationEvents = the same state machine plus (i) delivery of the Update events of the jobs written by a '
             'round (passed job: annotation written, phase still empty; failed job) to the real event handler after every round, (ii) pods with '
-            'the evict override annotation (1/10 of the pods) and an action that asks Filter for annotated pods again and again. distinct = FNV-64 of caps/limits + full history.',
+            'the evict override annotation (1/10 of the pods) and an action that asks Filter for annotated pods again and again, (iii) the pod of a waiting job deleted and re-created '
+            'under the same name with a new UID. (b2) deschedulerCycle: a real Descheduler (1-2 profiles built by framework/testing.NewFramework, '
+            '0-2 Deschedule and 0-2 Balance harness plugins per profile that ask handle.Evictor() to evict generated pods, PodEvictor-backed evict '
+            'plugin on the gate clientset, one shared EvictionLimiter with generated caps, 2-4 nodes) runs 1-3 deschedulerOnce cycles; oracle '
+            'after every cycle, on that cycle only. Non-trivial = not dry-run and in some cycle and capped scope both a Deschedule and a Balance '
+            'plugin ask for an eviction the API would grant while together they ask for more than the cap. distinct = FNV-64 of caps/limits + '
+            'full history.',
     'assumptions': [
         'evictions issued = eviction API calls answered with success by the (fake) API server; a failed call evicts nothing and may be '
         'followed by further attempts',
@@ -48,6 +54,10 @@ PROP = {
         'reasons for a Failed job; jobs are attributed to their pod by podRef namespace/name, so a podRef without UID changes nothing in '
         'the oracle',
         'a restart replays only the jobs that are not finished (phase "", Pending, Running)',
+        'deschedulerCycle: with two profiles the order of the profiles inside a phase is Go map iteration order of profile.Map (not '
+        'controlled; the per-cycle oracle does not depend on it); the node informer is not started, ReadyNodes lists from the clientset',
+        'a pod re-created under the same name is the pod of the job for the oracle (attribution by podRef namespace/name), whatever '
+        'UID the podRef carries',
         'Parallel tests: the Go scheduler decides the order inside a batch, so which interleaving is explored is not a pure function of the '
         'seed there (the oracle holds for every interleaving of correct code); the Interleaved tests are deterministic',
     ],
